@@ -321,10 +321,11 @@ fn rust_method(env: &Env, abi: &str, m: &Method, scripts: &[Script], plain: bool
                     let Val::Cb(cargs, _) = &sc.args[k] else { panic!("bad cb value") };
                     let call = format!("{n}({})", ps.iter().zip(cargs).map(|(t, v)| rust_expr(env, t, v)).collect::<Vec<_>>().join(", "));
                     let pat = if si + 1 == scripts.len() { "_".to_string() } else { si.to_string() };
+                    // every callback is invoked twice: a callable with state must be the same object both times
                     if **r == Ty::Unit {
-                        body += &format!("                {pat} => {{ {call}; s.push_str(\"called\"); }}\n");
+                        body += &format!("                {pat} => {{ {call}; {call}; s.push_str(\"called\"); }}\n");
                     } else {
-                        body += &format!("                {pat} => {{ let r = {call}; crate::VShow::vshow(&r, &mut s); }}\n");
+                        body += &format!("                {pat} => {{ let _ = {call}; let r = {call}; crate::VShow::vshow(&r, &mut s); }}\n");
                     }
                 }
                 body += "            }\n";
@@ -886,7 +887,7 @@ pub fn c_driver(case: &Case, headers: &BTreeMap<String, String>) -> Result<(Stri
                             let has_ret = **r != Ty::Unit;
                             let mut f = format!("static {} {fname}(const void* data", if has_ret { format!("CBRET_{abi}_{n}") } else { "void".to_string() });
                             for (i, _) in ps.iter().enumerate() { f += &format!(", CBARG_{abi}_{n}_{i} x{i}"); }
-                            f += &format!(") {{\n  printf(\"cb {abi}.{n}:\");\n");
+                            f += &format!(") {{\n  static int fallback_count = 0; int* cnt = data ? (int*)data : &fallback_count; if (!data && fallback_count >= 2) fallback_count = 0; ++*cnt;\n  printf(\"cb {abi}.{n}#%d:\", *cnt);\n");
                             let mut gg = CGen::new(&env, &case.prefix);
                             for (i, p) in ps.iter().enumerate() {
                                 f += &format!("  printf(\" \"); {}\n", gg.show(p, &format!("x{i}")));
@@ -903,9 +904,15 @@ pub fn c_driver(case: &Case, headers: &BTreeMap<String, String>) -> Result<(Stri
                                 f += &format!("static void cbd_{abi}_{n}(const void* data) {{ printf(\"cb-destroy {abi}.{n}\\n\"); }}\n");
                             }
                             callbacks += &f;
-                            decls += &format!("  {cty} a{pi} = {{ 0, (void*){fname}, (void*)cbd_{abi}_{n} }};\n");
+                            if salt == 0 {
+                                decls += &format!("  {cty} a{pi} = {{ 0, (void*){fname}, (void*)cbd_{abi}_{n} }};\n");
+                            } else {
+                                decls += &format!("  int cnt{pi} = 0; {cty} a{pi} = {{ &cnt{pi}, (void*){fname}, (void*)cbd_{abi}_{n} }};\n");
+                            }
                             cb_destroy.push(format!("cb-destroy {abi}.{n}"));
-                            cb_lines.push(format!("cb {abi}.{n}:{}", cargs.iter().map(|a| format!(" {}", a.show())).collect::<String>()));
+                            for k in 1..=2 {
+                                cb_lines.push(format!("cb {abi}.{n}#{k}:{}", cargs.iter().map(|a| format!(" {}", a.show())).collect::<String>()));
+                            }
                             rust_line += &format!(" {n}={}", if has_ret { cret.show() } else { "called".to_string() });
                         }
                         _ => {
